@@ -2,6 +2,7 @@ package mocks
 
 import (
 	"context"
+	"encoding/json"
 	"errors"
 	"time"
 
@@ -18,6 +19,9 @@ type HonestSignPlugin struct {
 	Caps    []pf.Capability
 	Chain   *pki.Chain
 	KeySpec string // e.g. "EC-256"
+	// DropAnnotations makes the envelope generator dishonest in one respect: it signs the payload it
+	// was given minus the target descriptor's annotations
+	DropAnnotations bool
 }
 
 func (p *HonestSignPlugin) GetMetadata(ctx context.Context, req *pf.GetMetadataRequest) (*pf.GetMetadataResponse, error) {
@@ -41,7 +45,15 @@ func (p *HonestSignPlugin) GenerateSignature(ctx context.Context, req *pf.Genera
 
 func (p *HonestSignPlugin) GenerateEnvelope(ctx context.Context, req *pf.GenerateEnvelopeRequest) (*pf.GenerateEnvelopeResponse, error) {
 	now := time.Now()
-	spec := envb.Spec{Format: req.SignatureEnvelopeType, Payload: req.Payload, ContentType: req.PayloadType, Scheme: envb.SchemeX509, SigningTime: now,
+	payload := req.Payload
+	if p.DropAnnotations {
+		var pl map[string]map[string]json.RawMessage
+		if json.Unmarshal(payload, &pl) == nil && pl["targetArtifact"] != nil {
+			delete(pl["targetArtifact"], "annotations")
+			payload, _ = json.Marshal(pl)
+		}
+	}
+	spec := envb.Spec{Format: req.SignatureEnvelopeType, Payload: payload, ContentType: req.PayloadType, Scheme: envb.SchemeX509, SigningTime: now,
 		Chain: p.Chain.X509(), Key: p.Chain.Leaf().Key, Agent: "honest plugin"}
 	if req.ExpiryDurationInSeconds > 0 {
 		spec.Expiry = now.Add(time.Duration(req.ExpiryDurationInSeconds) * time.Second)
